@@ -170,8 +170,12 @@ class ElementLocator : public BaseElementLocator
     template <class... Args>
     auto emplace_at(std::size_t index, std::byte* memory_begin, const FixedSizesArray& fixed_sizes, Args&&... args)
     {
-        const auto element_addresses_begin = ElementTraits::emplace_at_aliased(
-            memory_begin + this->element_addresses_[index], fixed_sizes, std::forward<Args>(args)...);
+        // like emplace_back: an element starts at the storage alignment after the end of its predecessor
+        const auto element_begin =
+            ElementTraits::align_for_first_parameter(memory_begin + this->element_addresses_[index]);
+        this->element_addresses_[index] = element_begin - memory_begin;
+        const auto element_addresses_begin =
+            ElementTraits::emplace_at_aliased(element_begin, fixed_sizes, std::forward<Args>(args)...);
         this->element_addresses_[index + 1] = element_addresses_begin - memory_begin;
         return element_addresses_begin;
     }
